@@ -71,7 +71,8 @@ MUTANTS = {
     ],
     "C12": [
         ("redirect_query_dropped", [("routing/map.py", "        if query_args:\n            query_str = self.encode_query_args(query_args)", "        if False:\n            query_str = self.encode_query_args(query_args)")]),
-        ("redirect_path_not_lstripped", [("routing/map.py", "path = \"/\".join((self.script_name.strip(\"/\"), path_info.lstrip(\"/\")))\n        return urlunsplit((scheme, host, path, query_str, None))", "path = self.script_name.rstrip(\"/\") + path_info\n        return urlunsplit((scheme, host, path, query_str, None))")]),
+        # (equivalent for the router's own redirects: the matcher always hands over a path with a single leading slash)
+        ("redirect_path_not_lstripped_EQUIVALENT", [("routing/map.py", "path = \"/\".join((self.script_name.strip(\"/\"), path_info.lstrip(\"/\")))\n        return urlunsplit((scheme, host, path, query_str, None))", "path = self.script_name.rstrip(\"/\") + path_info\n        return urlunsplit((scheme, host, path, query_str, None))")]),
         ("redirect_uses_http_always", [("routing/map.py", "scheme = self.url_scheme or \"http\"\n        host = self.get_host(domain_part)", "scheme = \"http\"\n        host = self.get_host(domain_part)")]),
         ("redirect_drops_script_root", [("routing/map.py", "path = \"/\".join((self.script_name.strip(\"/\"), path_info.lstrip(\"/\")))", "path = \"/\" + path_info.lstrip(\"/\")")]),
     ],
@@ -92,19 +93,38 @@ MUTANTS = {
         ("dispatcher_prefix_without_boundary", [("middleware/dispatcher.py", "script, last_item = script.rsplit(\"/\", 1)", "script, last_item = script[:-1], script[-1:]")]),
     ],
     "C16": [
-        ("updatedict_pop_no_callback", [("datastructures/mixins.py", "        if self.on_update is not None:\n            self.on_update(self)\n        return rv\n\n    def popitem", "        return rv\n\n    def popitem")]),
+        ("updatedict_pop_no_callback", [("datastructures/mixins.py", "            rv = super().pop(key, default)  # type: ignore[arg-type]\n        if modified and self.on_update is not None:\n            self.on_update(self)", "            rv = super().pop(key, default)  # type: ignore[arg-type]")]),
+        ("updatedict_setdefault_no_callback", [("datastructures/mixins.py", "        rv = super().setdefault(key, default)  # type: ignore[arg-type]\n        if modified and self.on_update is not None:\n            self.on_update(self)", "        rv = super().setdefault(key, default)  # type: ignore[arg-type]")]),
         ("headerset_clear_no_callback", [("datastructures/structures.py", "        self._set.clear()\n        self._headers.clear()\n\n        if self.on_update is not None:\n            self.on_update(self)", "        self._set.clear()\n        self._headers.clear()")]),
         ("www_auth_token_setter_swallowed", [("datastructures/auth.py", "            \"token\",\n            \"_type\",", "            \"_type\",")]),
     ],
     "C17": [
         ("sort_key_loses_specificity", [("datastructures/accept.py", "key=lambda x: (self._specificity(x[0]), x[1])", "key=lambda x: x[1]")]),
-        ("q0_allowed", [("datastructures/accept.py", "if quality <= 0:", "if quality < 0:")]),
-        ("q_above_one_accepted", [("http.py", "if q_float < 0 or q_float > 1:", "if q_float < 0:")]),
+        ("q0_allowed", [("datastructures/accept.py", "if quality <= 0 or quality < best_quality:", "if quality < 0 or quality < best_quality:")]),
+        ("q_above_one_accepted", [("http.py", "            if q < 0 or q > 1:", "            if q < 0:")]),
+        ("tie_break_ignores_specificity", [("datastructures/accept.py", "if quality > best_quality or specificity > best_specificity:", "if quality > best_quality:")]),
     ],
     "C18": [
         ("local_setattr_no_copy", [("local.py", "values = self.__storage.get({}).copy()\n        values[name] = value", "values = self.__storage.get({})\n        values[name] = value")]),
         ("stack_push_no_copy", [("local.py", "stack = self._storage.get([]).copy()", "stack = self._storage.get([])")]),
         ("local_delattr_no_copy", [("local.py", "            values = values.copy()\n            del values[name]", "            del values[name]")]),
         ("stack_pop_in_place", [("local.py", "        rv = stack[-1]\n        self._storage.set(stack[:-1])\n        return rv", "        rv = stack.pop()\n        return rv")]),
+    ],
+    "C19": [
+        ("terminator_check_removed", [("serving.py", "                if terminator not in (b\"\\n\", b\"\\r\\n\", b\"\\r\"):\n                    raise OSError(\"Missing chunk terminating newline\")", "                pass")]),
+        ("chunked_framing_for_head", [("serving.py", "                        or environ[\"REQUEST_METHOD\"] == \"HEAD\"\n", "")]),
+        ("residual_length_not_decremented", [("serving.py", "                buf[read : read + n] = data\n                self._len -= n", "                buf[read : read + n] = data\n                self._len -= n if n > 1 else 0")]),
+        ("underscore_headers_kept", [("serving.py", "            if \"_\" in key:\n                continue\n", "")]),
+        ("repeated_headers_overwrite", [("serving.py", "                if key in environ:\n                    value = f\"{environ[key]},{value}\"", "                if False:\n                    value = f\"{environ[key]},{value}\"")]),
+        ("zero_chunk_terminator_missing", [("serving.py", "                if chunk_response:\n                    self.wfile.write(b\"0\\r\\n\\r\\n\")", "                if chunk_response and False:\n                    self.wfile.write(b\"0\\r\\n\\r\\n\")")]),
+        # (equivalent since the chunk-size syntax check: a '-' can no longer reach int(); kept out of the matrix)
+    ],
+    "C20": [
+        ("suffix_match_without_dot", [("sansio/utils.py", "hostname.endswith(f\".{ref}\")", "hostname.endswith(ref)")]),
+        ("eval_without_pin_trust", [("debug/__init__.py", "                and self.secret == secret\n                and self.check_pin_trust(environ)", "                and self.secret == secret")]),
+        ("lockout_threshold_100", [("debug/__init__.py", "elif self._failed_pin_auth.value > 10:", "elif self._failed_pin_auth.value > 100:")]),
+        ("console_without_host_check", [("debug/__init__.py", "    def check_host_trust(self, environ: WSGIEnvironment) -> bool:\n        return host_is_trusted(environ.get(\"HTTP_HOST\"), self.trusted_hosts)", "    def check_host_trust(self, environ: WSGIEnvironment) -> bool:\n        return environ.get(\"HTTP_HOST\") is None or host_is_trusted(environ.get(\"HTTP_HOST\"), self.trusted_hosts)")]),
+        ("expired_cookie_accepted", [("debug/__init__.py", "return (time.time() - PIN_TIME) < ts", "return True")]),
+        ("port_not_stripped_from_entry", [("sansio/utils.py", "            ref = ref.partition(\":\")[0].encode(\"idna\").decode(\"ascii\")", "            ref = ref.encode(\"idna\").decode(\"ascii\")")]),
     ],
 }
